@@ -262,8 +262,17 @@ def check_seq(ctx, case):
         model = {}
         for p in spec['params']:
             pobj = mobj.parameters[p['name']]
+            # the interval in effect follows from the declaration and the configuration, not from what the node made of it:
+            # the parameter's own update_unchanged, else the module's omit_unchanged_within (0 included), else the general default
+            uu = p.get('uu', 'default')
+            want = 0 if uu == 'always' else 999999999 if uu == 'never' else float(uu) if isinstance(uu, (int, float)) else \
+                (spec['omit'] if spec.get('omit') is not None else spec.get('general_omit', 0))
+            if pobj.omit_unchanged_within != want:
+                ctx.finding('omit-interval-not-as-configured', case, f'{p["name"]} (update_unchanged {uu!r}, module {spec.get("omit")!r}, general '
+                            f'{spec.get("general_omit")!r}): {pobj.omit_unchanged_within!r} instead of {want!r}')
+                return
             model[p['name']] = {'v': rm.canon(pobj.value), 'e': errkey(pobj.readerror) if pobj.readerror else None, 'ts': pobj.timestamp or 0,
-                                'interval': pobj.omit_unchanged_within, 'export': p['export']}
+                                'interval': want, 'export': p['export']}
         expected = []
         initial = {pn: ('value', m['v']) for pn, m in model.items() if m['e'] is None}
         suppress = transition = False
